@@ -68,7 +68,7 @@ func sum(ds []time.Duration) (s time.Duration) {
 
 func (it *Interp) Step(t []string, op string) string {
 	switch t[0] {
-	case "load":
+	case "load", "loadres":
 		// load (<f:threshold> <statIntervalMs> <maxQueueingTimeMs>)* [other=<n>]: the complete rule list of the resource, in
 		// check order; `other=<n>` adds a rule (threshold n) for another resource, so that a list that is otherwise
 		// identical to the current one is still a real reload for flow.LoadRules
@@ -96,7 +96,18 @@ func (it *Interp) Step(t []string, op string) string {
 				MaxQueueingTimeMs:      uint32(vh.U(args[i+2])),
 			})
 		}
-		if _, err := flow.LoadRules(rules); err != nil {
+		if t[0] == "loadres" {
+			// the per-resource path (the other resource's rule, if any, is not touched)
+			var own []*flow.Rule
+			for _, r := range rules {
+				if r.Resource == it.res {
+					own = append(own, r)
+				}
+			}
+			if _, err := flow.LoadRulesOfResource(it.res, own); err != nil {
+				panic(err)
+			}
+		} else if _, err := flow.LoadRules(rules); err != nil {
 			panic(err)
 		}
 		// (whether the rules really are in force is what the following requests show; flow.GetRules is C13's subject)
